@@ -222,3 +222,105 @@ def subset_cases(S, level, story_ref=None, nmax=4):
                     yield 'EAStoryInsert', dict(target=t, carried=[B.clone(c) for c in carried]), n, mask
                     if t is not BLANK:
                         yield 'roStoryInsert', dict(target=t, carried=[B.clone(c) for c in carried]), n, mask
+
+
+# --------------------------------------------------------------------------
+# collections through the three constructors, and the hand fold
+
+_S3 = {'on': False, 'n': 0}
+
+
+def ensure_fake_s3():
+    from .. import attach, fakes3
+    if not _S3['on']:
+        attach.install_fake_s3(fakes3)
+        _S3['on'] = True
+    return fakes3
+
+
+def make_collection(s, docs, how, allow_incomplete, tmpdir=None, names=None):
+    """Returns (mc, exc).  how: strings | files | s3."""
+    import os
+    import mosromgr.moscollection as mcmod
+    from .. import events as EV
+    EV.STATE['quiet'] = EV.STATE.get('quiet', 0) + 1
+    try:
+        if how == 'strings':
+            return mcmod.MosCollection.from_strings(list(docs), allow_incomplete=allow_incomplete), None
+        if how == 'files':
+            paths = []
+            for k, d in enumerate(docs):
+                p = os.path.join(tmpdir, (names[k] if names else 'f%03d.mos.xml' % k))
+                with open(p, 'w', encoding='utf-8') as f:
+                    f.write(d)
+                paths.append(p)
+            return mcmod.MosCollection.from_files(paths, allow_incomplete=allow_incomplete), None
+        if how == 's3':
+            f3 = ensure_fake_s3()
+            _S3['n'] += 1
+            bucket = 'bucket-%d' % _S3['n']
+            f3.BUCKETS.pop(bucket, None)
+            for k, d in enumerate(docs):
+                f3.put(bucket, 'pre/fix/%s' % (names[k] if names else 'k%03d.mos.xml' % k), d)
+            f3.put(bucket, 'pre/fix/ignored.txt', 'not a mos file')
+            f3.put(bucket, 'other/zzz.mos.xml', '<mos/>')
+            f3.CONFIG['page_size'] = 1 + (_S3['n'] % 5)
+            return mcmod.MosCollection.from_s3(bucket_name=bucket, prefix='pre/fix/',
+                                               allow_incomplete=allow_incomplete), None
+        raise ValueError(how)
+    except Exception as e:
+        return None, e
+    finally:
+        EV.STATE['quiet'] -= 1
+
+
+def merge_collection(s, mc, strict):
+    """mc.merge under an always filter.  Returns (exc|None, warning names)."""
+    import warnings as W
+    from .. import events as EV
+    with W.catch_warnings(record=True) as wl:
+        W.simplefilter('always')
+        EV.STATE['quiet'] = EV.STATE.get('quiet', 0) + 1
+        try:
+            mc.merge(strict=strict)
+            err = None
+        except Exception as e:
+            err = e
+        finally:
+            EV.STATE['quiet'] -= 1
+    return err, [type(w.message).__name__ for w in wl]
+
+
+def message_id_of(doc):
+    from xml.etree import ElementTree as ET
+    return int(ET.fromstring(doc).find('messageID').text)
+
+
+def hand_fold(s, docs, strict):
+    """The sequential fold the property names: add each message, freshly read,
+    to the roCreate in ascending message-ID order.  Returns
+    (text, n_failed, propagated_exc|None, applied_ids)."""
+    import warnings as W
+    from ..spec import classify_doc
+    from xml.etree import ElementTree as ET
+    ordered = sorted(docs, key=message_id_of)
+    create = [d for d in ordered if classify_doc(ET.fromstring(d)) == 'RunningOrder']
+    rest = [d for d in ordered if classify_doc(ET.fromstring(d)) != 'RunningOrder']
+    ro = s.load(create[0])
+    failed = 0
+    applied = []
+    MosMergeError = s.exc.MosMergeError
+    with W.catch_warnings():
+        W.simplefilter('ignore')
+        for d in rest:
+            msg = s.load(d)
+            try:
+                ro = ro + msg
+                applied.append(message_id_of(d))
+            except MosMergeError as e:
+                failed += 1
+                if strict:
+                    return str(ro), failed, e, applied
+            except Exception as e:
+                return str(ro), failed, e, applied
+    return str(ro), failed, None, applied
